@@ -366,7 +366,9 @@ func c12CLI(c *fw.Ctx, r *rand.Rand, u, served, caseDir string, rels []string, f
 			return
 		}
 		// time:/duration lines and the wording of error messages are not part of the property
-		norm := func(s string) string { return errTextRe.ReplaceAllString(timeLineRe.ReplaceAllString(s, ""), "err:<text>") }
+		norm := func(s string) string {
+			return errTextRe.ReplaceAllString(timeLineRe.ReplaceAllString(s, ""), "err:<text>")
+		}
 		if lres.Exit != rres.Exit || norm(lres.Stdout) != norm(rres.Stdout) {
 			c.Violationf("cli-remote-local-differ:"+p.name, det, "%s: exit %d vs %d; outputs %s", p.name, lres.Exit, rres.Exit, map[bool]string{true: "equal", false: "differ"}[norm(lres.Stdout) == norm(rres.Stdout)])
 			return
